@@ -63,7 +63,7 @@ def check_random_hypergraph(item, acc):
         return h, f
 
     try:
-        for script, res, ch, pruned in CH.explore(run, budgets={"std.sample": total + 1}):
+        for script, res, ch, pruned in acc.explore(run, budgets={"std.sample": total + 1}):
             acc.evaluations += 1
             if pruned:
                 acc.count("pruned-redraw-budget")
@@ -132,7 +132,7 @@ def check_add_random(item, acc):
         return h, r
 
     try:
-        for script, res, ch, pruned in CH.explore(run, budgets={"std.sample": (num or 1) + 1}):
+        for script, res, ch, pruned in acc.explore(run, budgets={"std.sample": (num or 1) + 1}):
             acc.evaluations += 1
             if pruned:
                 acc.count("pruned-redraw-budget")
@@ -195,7 +195,7 @@ def check_shuffle(item, acc):
         return h, r, f, list(h.get_edges(size=size_k)) if not all_orders else None
 
     try:
-        for script, res, ch, pruned in CH.explore(run):
+        for script, res, ch, pruned in acc.explore(run):
             acc.evaluations += 1
             h, r, f, _ = res
             out = h if (inplace and not all_orders) else (r if r is not None else h)
@@ -270,7 +270,7 @@ def check_scale_free(item, acc):
             return SF.scale_free_hypergraph(n, dict(spec), {s: 1.0 for s, c in spec}, **kwargs)
 
     try:
-        for script, res, ch, pruned in CH.explore(run, budgets={"np.choice-noreplace": total + 2 + kwargs.get("num_shuffles", 0) * len(spec)}, horizon=60):
+        for script, res, ch, pruned in acc.explore(run, budgets={"np.choice-noreplace": total + 2 + kwargs.get("num_shuffles", 0) * len(spec)}, horizon=60):
             acc.evaluations += 1
             if pruned:
                 acc.count("pruned-redraw-budget")
@@ -310,7 +310,7 @@ def check_hoad(item, acc):
             return AD.HOADmodel(N, {k: list(v) for k, v in acts}, time=time)
 
     try:
-        for script, res, ch, pruned in CH.explore(run, horizon=200):
+        for script, res, ch, pruned in acc.explore(run, horizon=200):
             acc.evaluations += 1
             if pruned:
                 acc.count("pruned-horizon")
@@ -412,7 +412,7 @@ def run(ctx):
     its = list(items(ctx.tier))
     k = ctx.jobs * 8
     shards = [its[i::k] for i in range(k)]
-    ev, nt, oc = run_e4(ctx, [it for s in shards for it in s], worker, nchunks=k)
+    ev, nt, oc = run_e4(ctx, [it for s in shards for it in s], worker, nchunks=k, budget=60000000 if ctx.tier == "quick" else 1200000000, config_cap=1500000 if ctx.tier == "quick" else 30000000)
     from collections import Counter
 
     kinds = Counter(kd for kd, _ in its)
@@ -424,7 +424,8 @@ def run(ctx):
         ctx.sample({kd: [C.show(x) if isinstance(x, dict) and "kind" in x else x for x in it]})
     cov = {
         "seam_validation": seam_report,
-        "evaluations": ev, "distinct_nontrivial": len(nt), "exhaustive": True, "configurations": len(its), "distinct_outcomes": len(oc),
+        "evaluations": ev, "distinct_nontrivial": len(nt), "exhaustive": not (ctx.counts.get("configurations-capped-by-budget", 0) or ctx.counts.get("configurations-skipped-budget-exhausted", 0)),
+        "configurations_capped_or_skipped_by_execution_budget": ctx.counts.get("configurations-capped-by-budget", 0) + ctx.counts.get("configurations-skipped-budget-exhausted", 0), "configurations": len(its), "distinct_outcomes": len(oc),
         "pruned_at_budget": ctx.counts.get("pruned-redraw-budget", 0) + ctx.counts.get("pruned-horizon", 0),
         "rule": "every answer of every draw (random.sample -> every k-subset, ordered when <=24; np.random.choice(replace=False,p) -> every subset of the "
                 "support; coins -> both outcomes unless forced; exponential -> menu of 3 vectors) for: random_hypergraph (n<=4, size->count maps over sizes 1-3, "
